@@ -377,19 +377,27 @@ scen_cache(const sim::Plan& p, int threads, const sc::Params& sp)
   const int n = (int)req.size();
   Outcome o;
   o.h.assign((size_t)n, 0);
+  // clear_cache() is called *between* batches of concurrent requests, from serial code: STIR protects concurrent clears
+  // against each other (a named critical) but does not promise that clearing while other threads look rows up is safe,
+  // and C18 only speaks of concurrent *use* of the cache.
   const bool do_clear = p.c("clear", 0) != 0;
   sc::configure(sp);
   set_num_threads(threads);
   uint64_t* out = o.h.data();
   const Bin* rq = req.data();
   ProjMatrixByBin* m = s.matrix.get();
-#pragma omp parallel for schedule(dynamic)
-  for (int i = 0; i < n; ++i)
+  const int nbatch = do_clear ? 3 : 1;
+  for (int b = 0; b < nbatch; ++b)
     {
-      ProjMatrixElemsForOneBin row;
-      m->get_proj_matrix_elems_for_one_bin(row, rq[i]);
-      out[i] = row_hash(row);
-      if (do_clear && i % 17 == 16)
+      const int lo = n * b / nbatch, hi = n * (b + 1) / nbatch;
+#pragma omp parallel for schedule(dynamic)
+      for (int i = lo; i < hi; ++i)
+        {
+          ProjMatrixElemsForOneBin row;
+          m->get_proj_matrix_elems_for_one_bin(row, rq[i]);
+          out[i] = row_hash(row);
+        }
+      if (do_clear)
         m->clear_cache();
     }
   return o;
